@@ -280,7 +280,11 @@ func main() {
 		resps := hxc26.Pool{N: 8}.RunAll(reqs)
 		// a slow return under load is not a verdict: re-run alone before it counts
 		for i, rp := range resps {
-			if !rp.Hang && rp.Cancelled && rp.LatencyUs > 600000 {
+			slack := int64(600000) // re-run alone when the return came later than the kill timeout + 0.6 s
+			if k := reqs[i].ExecKillMs; k != nil && *k > 0 {
+				slack += int64(*k) * 1000
+			}
+			if !rp.Hang && rp.Cancelled && rp.LatencyUs > slack {
 				again := hxc26.Pool{N: 1}.RunAll(reqs[i : i+1])[0]
 				if !again.Hang && again.LatencyUs < rp.LatencyUs {
 					resps[i] = again
